@@ -1754,3 +1754,8 @@ def run(ctx):
     for r in readers:
         _check_reader(ctx, r, names, dec_fn.name, flush_fn.name)
     _check_chunk_body(ctx)
+    if getattr(ctx, 'prop', None) == 'C19':
+        # the decoder sees the content bytes only if the chunk framing is removed exactly (rules shared with C08)
+        from . import c08
+        from .common import RemapCtx
+        c08.d4_chunk(RemapCtx(ctx, {'C08-D4': 'C19-D2'}))
